@@ -31,6 +31,8 @@ def run(ctx, rep):
     rep.rule("R10.4", "the arithmetic of add/decref is consistent (removed <=> outstanding - returned <= 0) and runs under the lock")
     rep.rule("R10.5", "closing releases everything the connection held")
     rep.rule("R10.6", "exports are counted and proxies are cached weakly (constructor table of the connection state)")
+    rep.rule("R10.8", "the proxy finalizer is the proxy's own: __del__ (like every method of the proxy base class) stays in the local "
+             "names, so a target's own __del__ never shadows the one that sends the release (= R02.3)")
     rep.rule("R10.7", "every reference the peer lent in a message is materialised as a proxy (whose death returns it): replies and "
                       "exceptions are unboxed on every path, request arguments before anything else of the request can fail")
     rep.assume("races between a release notice and a reference in flight, GC timing and weakref callback order are not decided")
@@ -284,3 +286,5 @@ def run(ctx, rep):
            "the handler table is consulted before (or in the same expression as, hence before) the arguments are unboxed: a request "
            "with an unknown handler id fails first and the objects lent in its arguments never get a proxy - they leak at the sender",
            ctx.loc(look[0]) if look else fdr.loc)
+    K.share(ctx, rep, "c02", lambda o: o.rule == "R02.3" and ("every method defined by BaseNetref" in o.key or
+                                                             "relies on" in o.key or "__slots__" in o.key), "R10.8", floor=2)
